@@ -4,36 +4,39 @@ follower-side deferral of `doExpried`. -/
 namespace Slock.Engine2
 open Slock.Engine (has mkReply)
 
+theorem Fr.dropT (w : W) (rid : Nat) : Fr w (w.dropT rid) := (FQ.modR _ _ _).fr.trans (Fr.unrefCheck _ _)
+theorem Fr.dropE (w : W) (rid : Nat) : Fr w (w.dropE rid) := (FQ.modR _ _ _).fr.trans (Fr.unrefCheck _ _)
+
 theorem W.fireTimeout_fr (w : W) (rid : Nat) : Fr w (w.fireTimeout rid) := by
   unfold W.fireTimeout
   simp only []
   split
-  · exact (FQ.modR _ _ _).fr.trans (Fr.unrefCheck _ _)
+  · exact Fr.dropT _ _
   · refine Fr.trans ?_ (Fr.reply _ _ _ _ _)
     refine Fr.trans ?_ (FQ.ctr _ _).fr
-    refine Fr.trans ?_ (Fr.unrefCheck _ _)
-    exact ((FQ.modR _ _ _).trans ((FQ.modR _ _ _).trans ((settleWait_fq _).trans (FQ.ctr _ _)))).fr
+    refine Fr.trans ?_ (Fr.dropT _ _)
+    exact ((FQ.modR _ _ _).trans ((settleWait_fq _).trans (FQ.ctr _ _))).fr
 
 theorem W.fireExpire_fr (w : W) (rid : Nat) : Fr w (w.fireExpire rid) := by
   unfold W.fireExpire
   simp only []
   split
-  · exact (FQ.modR _ _ _).fr.trans (Fr.unrefCheck _ _)
+  · exact Fr.dropE _ _
   · split
-    · exact ((FQ.modR _ _ _).trans ((FQ.modR _ _ _).trans (FQ.addExpried _ _))).fr
+    · exact ((FQ.modR _ _ _).trans (FQ.addExpried _ _)).fr
     · refine Fr.trans ?_ (Fr.wake _)
       refine Fr.trans ?_ (Fr.reply _ _ _ _ _)
       refine Fr.trans ?_ (FQ.ctr _ _).fr
-      refine Fr.trans ?_ (Fr.unrefCheck _ _)
+      refine Fr.trans ?_ (Fr.dropE _ _)
       refine Fr.trans ?_ (FQ.modK _ (·.removeLock rid) (by simp) (by simp) (by simp)).fr
       refine Fr.trans ?_ (Fr.when _ _ _ (FQ.pushUnLockAof _ _ _ _ _ _).fr)
-      exact ((FQ.modR _ _ _).trans (FQ.modR _ _ _)).fr.trans (Fr.modLocked _ _ rfl)
+      exact (FQ.modR _ _ _).fr.trans (Fr.modLocked _ _ rfl)
 
 theorem W.visitTimeout_fr (w : W) (slot : Bool) (rid : Nat) (w' : W) (h : w.visitTimeout slot rid = some w') : Fr w w' := by
   unfold W.visitTimeout at h
   simp only [] at h
   split at h
-  · injection h with h; rw [← h]; exact (FQ.modR _ _ _).fr.trans (Fr.unrefCheck _ _)
+  · injection h with h; rw [← h]; exact Fr.dropT _ _
   · split at h
     · injection h with h; rw [← h]; exact ((FQ.modR _ _ _).trans (FQ.addTimeOut _ _)).fr
     · simp at h
@@ -42,7 +45,7 @@ theorem W.visitExpire_fr (w : W) (slot : Bool) (rid : Nat) (w' : W) (h : w.visit
   unfold W.visitExpire at h
   simp only [] at h
   split at h
-  · injection h with h; rw [← h]; exact (FQ.modR _ _ _).fr.trans (Fr.unrefCheck _ _)
+  · injection h with h; rw [← h]; exact Fr.dropE _ _
   · split at h
     · injection h with h; rw [← h]; exact ((FQ.modR _ _ _).trans (FQ.addExpried _ _)).fr
     · simp at h
